@@ -12,8 +12,10 @@ Open Scope Z_scope.
 (** s[i] / s[i:] on a Go string: run-time panic outside the bounds = None *)
 Definition str_index (s : bytes) (i : Z) : option Z :=
   if i <? 0 then None else nth_error s (Z.to_nat i).
+Fixpoint drop (n : nat) (s : bytes) : option bytes :=
+  match n with O => Some s | S n' => match s with [] => None | _ :: t => drop n' t end end.
 Definition str_from (s : bytes) (i : Z) : option bytes :=
-  if (i <? 0) || (blen s <? i) then None else Some (skipn (Z.to_nat i) s).
+  if i <? 0 then None else drop (Z.to_nat i) s.   (* None iff i > len(s) *)
 Definition lift_opt {A} (o : option A) : M A :=
   match o with Some a => ret a | None => panic end.
 (** uint64(i) for an int i *)
